@@ -9,6 +9,7 @@ V: histories with full issuance (fresh blind, nonce, challenge every time) and
    crypto/elliptic reference, and the issuer's returned key to equal the
    reference issuer-blinded key."""
 import vlib
+from checks import ages_common as ag
 from checks import verdicts_common as vc
 from checks import attester_common as ac
 
@@ -21,7 +22,9 @@ def run(ctx):
     # issuer-blinded request key is the reference's for THAT request (the value the origin ID is derived from)
     vn, vcases, vdepth = vc.run(ctx, ["t3issue"])
     ids = sum(1 for c in cases for s in c["steps"] if s.get("k") == "F")
+    an, acases = ag.run(ctx, ['rlissuer'])   # Ages.tla: every schedule of phases on one long-lived object, each phase scaled to n operations
     return ctx.finish({
+        **ag.coverage(an, acases),
         "traces_validated_against_impl": len(cases),
         "events_validated": n,
         "evaluations": ids,
@@ -40,6 +43,8 @@ def run(ctx):
 
 
 def replay(ctx, path):
+    if vlib.json.load(open(path)).get("family") == "ages":
+        return ag.replay(ctx, path)
     if vlib.json.load(open(path)).get("family") == "verdicts":
         return vc.replay(ctx, path)
     return ctx.replay_case(path, "attester", "Trace_Attester", cfg="Trace_Attester_C08.cfg")
